@@ -1,4 +1,5 @@
 import LitexModel.Stream.Route
+import LitexModel.Stream.Conv
 /-
   Per-cycle facts about Multiplexer / Demultiplexer (both are stateless).
 -/
@@ -44,5 +45,65 @@ theorem demux_cycle_other (n : Nat) (z : Tok α) (i : DemuxIn α) (k : Nat) (hk 
   by_cases h : k < n
   · simp [h, List.getD_eq_getElem?_getD, hk]
   · simp [h, List.getD_eq_getElem?_getD]
+
+/-! ### Crossbar = Demultiplexer ⟫ Multiplexer -/
+
+/-- Both selectors name the same existing port: the composition is a wire. -/
+theorem crossbarOut_pass (n : Nat) (z : Tok α) (seld selm : Nat) (v : Bool) (t : Tok α) (r : Bool)
+    (h : seld = selm ∧ seld < n) :
+    (crossbarOut n z seld selm v t r).ready = r ∧ (crossbarOut n z seld selm v t r).valid = v ∧
+    (crossbarOut n z seld selm v t r).tok = t := by
+  obtain ⟨rfl, hd⟩ := h
+  simp [crossbarOut, muxOut, demuxOut, hd, List.getD_eq_getElem?_getD]
+
+/-- Otherwise it is blocked in both directions (nothing accepted, nothing delivered). -/
+theorem crossbarOut_block (n : Nat) (z : Tok α) (seld selm : Nat) (v : Bool) (t : Tok α) (r : Bool)
+    (h : ¬ (seld = selm ∧ seld < n)) :
+    (crossbarOut n z seld selm v t r).ready = false ∧ (crossbarOut n z seld selm v t r).valid = false := by
+  have he' : seld = selm → ¬ seld < n := fun e hlt => h ⟨e, hlt⟩
+  by_cases hm : selm < n
+  · have hne : ¬ selm = seld := by
+      intro e; exact he' e.symm (e ▸ hm)
+    have hm' : ¬ n ≤ selm := by omega
+    by_cases hd : seld < n
+    · have hne' : ¬ seld = selm := fun e => hne e.symm
+      simp [crossbarOut, muxOut, demuxOut, hm, hd, hne, hne', List.getD_eq_getElem?_getD]
+    · simp [crossbarOut, muxOut, demuxOut, hm, hd, hne, List.getD_eq_getElem?_getD]
+  · simp [crossbarOut, muxOut, demuxOut, hm, List.getD_eq_getElem?_getD]
+    intro hd
+    by_cases hk : seld < n <;> simp [hk]
+
+def xbarRel (n : Nat) (_ : Unit) (a : List (Tok (α × Nat × Nat))) (d : List (Tok α)) : Prop :=
+  d = a.map (mapTok (·.1)) ∧ ∀ t ∈ a, t.data.2.1 = t.data.2.2 ∧ t.data.2.1 < n
+
+theorem crossbar_step (n : Nat) (z : α) (s : Unit) (a : List (Tok (α × Nat × Nat))) (d : List (Tok α))
+    (i : In (α × Nat × Nat)) (h : xbarRel n s a d) :
+    xbarRel n ((crossbar n z).step s i) (a ++ (crossbar n z).accNow s i) (d ++ (crossbar n z).delNow s i) := by
+  obtain ⟨iv, ⟨⟨td, sd, sm⟩, tf, tl⟩, ir⟩ := i
+  obtain ⟨h1, h2⟩ := h
+  subst h1
+  by_cases hp : sd = sm ∧ sd < n
+  · have hf := crossbarOut_pass n ⟨z, false, false⟩ sd sm iv ⟨td, tf, tl⟩ false hp
+    have hb := crossbarOut_pass n ⟨z, false, false⟩ sd sm iv ⟨td, tf, tl⟩ ir hp
+    refine ⟨?_, ?_⟩
+    · cases iv <;> cases ir <;>
+        simp [crossbar, Elem.accNow, Elem.delNow, Elem.out, hf.1, hf.2.1, hf.2.2, hb.1, mapTok]
+    · intro t ht
+      rcases List.mem_append.mp ht with ht | ht
+      · exact h2 t ht
+      · have : t = ⟨(td, sd, sm), tf, tl⟩ := by
+          unfold Elem.accNow at ht
+          split at ht
+          · simpa using ht
+          · simp at ht
+        subst this; exact hp
+  · have hf := crossbarOut_block n ⟨z, false, false⟩ sd sm iv ⟨td, tf, tl⟩ false hp
+    have hb := crossbarOut_block n ⟨z, false, false⟩ sd sm iv ⟨td, tf, tl⟩ ir hp
+    have ha : (crossbar n z).accNow s ⟨iv, ⟨(td, sd, sm), tf, tl⟩, ir⟩ = [] := by
+      simp [crossbar, Elem.accNow, Elem.out, hb.1]
+    have hd : (crossbar n z).delNow s ⟨iv, ⟨(td, sd, sm), tf, tl⟩, ir⟩ = [] := by
+      simp [crossbar, Elem.delNow, Elem.out, hf.2]
+    rw [ha, hd]
+    simpa [xbarRel] using h2
 
 end Litex.Stream
